@@ -111,3 +111,12 @@ def run(res, facts, tier):
                 else:
                     r2.violation(site, 'classified %s, XSLT 1.0 §5.5 requires %s' % (sname and sname[0], want), common.file_line(a))
     c10_lists.run(res, facts, tier)
+
+
+_run_c10_prev_builtin = run
+
+
+def run(res, facts, tier):
+    _run_c10_prev_builtin(res, facts, tier)
+    from . import c10_builtin
+    c10_builtin.run_rule(res, facts, tier)
